@@ -178,7 +178,9 @@ def run_config(ctx, rng, case, config, text, op, variables, ref, base_witness, m
                 ctx.observe("futures-pending-at-quiescence", st["pending_at_quiescence"])
         w = dict(base_witness, config=config, schedule=schedule, done_at_submit_choices=eager,
                  completion_order=[list(map(str, t)) for t in trace])
-        if config in ("asyncio-coroutines", "asyncio-mixed") and op.kind == "query":
+        # (only where resolvers are invoked inline: with blocking functions shipped to the loop's executor a plain
+        # function that hands back an awaitable starts its work when its pool task runs)
+        if config == "asyncio-coroutines" and op.kind == "query":
             # "every order in which pending results become available": the coroutine resolvers of the root
             # selection set have to be pending together, or no order but the written one can ever happen
             roots = set(t[1:] for t in trace if t and t[0] == "gate" and len(t) == 2)
